@@ -17,7 +17,7 @@ RULE = (
     "Three case shapes (drawn first): 'sandwich' rules A, X<times>, B on listings A X^r B with r drawn around both bounds "
     "(min-1, min, max, max+1, random); 'free' rules from the describe-a-window generator with times on items and groups; 'meta' pairs "
     "(X times n  vs  X written n times; {min:n,max:n} vs n; the two YAML spellings of an operand-less item; times on operand-level $deref/$or) whose "
-    "all-matches lists must be identical. X ranges over item, item+operands, $and, $or, $not, $and_any_order; bounds 0 <= min <= max <= 6. "
+    "all-matches lists must be identical. X ranges over item, item+operands, $and, $or, $not, $and_any_order; bounds 0 <= min <= max <= 6, and in a sixth of the sandwich cases two- and three-digit bounds (7..101, ranges up to 90 wide) with runs of that length. "
     "Oracle: reference matcher (verdict + span validity) for sandwich/free, list equality for meta. Non-trivial: times != 1 and (r within one of a "
     "bound, or a meta pair with >= 1 match, or expected-found); distinct by canonical hash."
 )
@@ -26,9 +26,10 @@ ASSUMPTIONS = [
     "times given as an integer or as a full {min,max} pair; min-only / max-only spellings are not asserted (defaults are not part of the statement)",
     "operand-level times is judged by the metamorphic relation only",
 ]
+BIG_KINDS = ("item", "item-ops", "$and", "$or", "$not", "$and_any_order")
 KINDS = ["item", "item-ops", "$and", "$or", "$not", "$and_any_order", "nested-times", "nested-times", "capture-ref", "nested-times-gap", "nested-times-gap"]
 SHAPES = ["sandwich", "sandwich", "sandwich", "free", "meta", "meta"]
-FLOORS = {"shape=sandwich": 0.3, "shape=meta": 0.2, "edge=min": 0.035, "edge=max": 0.035, "edge=max+1": 0.028, "edge=min-1": 0.02, "rel=macro-plain-use": 0.009}
+FLOORS = {"shape=sandwich": 0.3, "shape=meta": 0.2, "edge=min": 0.035, "edge=max": 0.035, "edge=max+1": 0.028, "edge=min-1": 0.02, "rel=macro-plain-use": 0.009, "bounds=multi-digit": 0.03}
 for _k in KINDS:
     FLOORS[f"kind={_k}"] = 0.04
 
@@ -145,6 +146,12 @@ def cases(draw):
     form = draw(st.sampled_from(["int", "range", "range"]))
     lo = draw(st.integers(0, 4))
     hi = lo if form == "int" else draw(st.integers(lo, min(6, lo + 3)))
+    big = shape == "sandwich" and kind in BIG_KINDS and draw(st.integers(0, 5)) == 0
+    if big:
+        # bounds written with two or three digits (the statement has no upper limit): 9/10/11 and 99/100/101 are where a bound that is
+        # handled digit-wise, or capped, first shows
+        lo = draw(st.sampled_from([7, 9, 10, 11, 12, 19, 20, 31, 32, 64, 99, 100, 101]))
+        hi = lo if form == "int" else lo + draw(st.sampled_from([0, 1, 2, 9, 10, 90]))
     t = times_value(draw, lo, hi, form)
     spelling = draw(st.sampled_from(["inside", "sibling", "sibling-first"]))
     full = draw(st.sampled_from([(False, False), (False, False), (True, False), (False, True), (True, True)]))
@@ -241,7 +248,7 @@ def cases(draw):
     if shape == "sandwich":
         pattern = [dA, attach(node, t, spelling), dB]
         assume(_names_ok(pattern))
-        return {"shape": shape, "kind": kind, "listing": L, "pattern": pattern, "edge": edge, "times": t, "r": r, "flags": list(full), "ext": ext}
+        return {"shape": shape, "kind": kind, "listing": L, "pattern": pattern, "edge": edge, "times": t, "r": r, "flags": list(full), "ext": ext, "big": big}
     # meta
     rel = draw(st.sampled_from(["unroll", "unroll", "range-eq-int", "spelling", "operand-deref", "operand-or", "operand-not", "operand-capture-ref", "macro-plain-use", "macro-plain-use", "macro-plain-use"]))
     n_ = draw(st.integers(0, 4))
@@ -352,6 +359,8 @@ def evaluate(case):
         ev.tags.append("flags=full")
     if case.get("ext", "none") != "none":
         ev.tags.append("ext=" + case["ext"])
+    if case.get("big"):
+        ev.tags.append("bounds=multi-digit")
     if shape in ("sandwich", "free"):
         exp, spans, _ = compare(ev, case["pattern"], L, mn_arg, op_arg)
         ev.tags.append("expect=found" if exp else "expect=notfound")
